@@ -5,7 +5,7 @@ import Driver.Env
 /-
 line engines of the input-parser model (C02, C03, C11, C12):
 
-  parse | parsechunk   <entry>[+x11fix][+keycaps][+clipfix] <charset> <w> <h> <chunkhex>:<0|1> …
+  parse | parsechunk   <entry>[+x11fix][+keycaps][+clipfix][+sgrfix] <charset> <w> <h> <chunkhex>:<0|1> …
         charset = `utf8` | `tbl:<name>:<r80>,<r81>,…,<rff>` (runes of bytes 0x80..0xFF of a single-byte charset)
         reply: one token per Feed: `<ev>,<ev>,…/<leftover>` (`-` for no events), `!amb` appended when the model
         stopped at an order-dependent function-key match.
@@ -34,10 +34,12 @@ def parseChunk (s : String) : Bytes × Bool :=
   | [h, e] => (unhex h, e = "1")
   | _ => ([], false)
 
-/-- `<entry>[+x11fix][+keycaps][+clipfix]`: entry name and the variant of the known-defect sites the code under test implements -/
+/-- `<entry>[+x11fix][+keycaps][+clipfix][+sgrfix]`: entry name and the variant of the known-defect sites the code under test implements -/
 def parseName (s : String) : String × Variant :=
   match s.splitOn "+" with
-  | n :: fl => (n, { x11 := fl.contains "x11fix", keycaps := fl.contains "keycaps", clip := fl.contains "clipfix" })
+  | n :: fl =>
+    let v : Variant := { x11 := fl.contains "x11fix", keycaps := fl.contains "keycaps", clip := fl.contains "clipfix", sgr := fl.contains "sgrfix" }
+    (n, v)
   | [] => (s, {})
 
 def run (env : Env) (rest : String) : String :=
